@@ -174,3 +174,18 @@ package client
 //@   requires[C13.latch_armed] cs.header == nil && wg(cs.ready) == 1
 //@   loop 0 invariant[C13.latch_armed] cs.header == nil ==> wg(cs.ready) == 1
 //@   loop 0 invariant[C13.latch_armed] !closed(cs.rCh)
+
+// ---------------------------------------------------------------------------------
+// C15: locking discipline of every shared field of package client
+
+//@ fielddefault[C15.discipline] client.RpcMultiplexer init_only
+//@ field[C15.discipline] client.RpcMultiplexer.handlers init_only contents=mutex
+//@ field[C15.discipline] client.RpcMultiplexer.rErr guarded_by mutex
+//@ field[C15.discipline] client.RpcMultiplexer.streamCounter atomic
+//@ fielddefault[C15.discipline] client.clientStream init_only
+//@ field[C15.discipline] client.clientStream.header guarded_by protected.Mutex readers=client.(*clientStream).readLoop
+//@ field[C15.discipline] client.clientStream.protected.done guarded_by protected.Mutex
+//@ field[C15.discipline] client.clientStream.protected.headerErr guarded_by protected.Mutex
+//@ field[C15.discipline] client.clientStream.protected.eErr guarded_by protected.Mutex
+//@ field[C15.discipline] client.clientStream.protected.rErr guarded_by protected.Mutex
+//@ field[C15.discipline] client.clientStream.protected.trailer guarded_by protected.Mutex
